@@ -98,6 +98,8 @@ def generate(run_seed, prop, tier="quick"):
             ops.append({"op": "own_parse_edit", "cfg": cfg, "how": rng.choice(["rebuild_h", "rebuild_h", "attrs", "clear_bonding"])})
         elif ctor_choice == "shared_dict" and faults["ownparse"] and rng.random() < 0.5:
             ops.append({"op": "edit_template", "cfg": cfg})
+        elif rng.random() < 0.3:
+            ops.append({"op": "mass_check", "which": rng.randrange(len(MASS_FRAGMENTS))})
         elif faults["ownparse"]:
             ops.append({"op": "helper_call", "how": rng.choice(["compute_mass_plain", "rebuild_h_plain", "both"]),
                         "smiles": rng.choice(["CCO", "c1ccccc1C", "CC(=O)[O-]", "C#N"])})
@@ -700,6 +702,18 @@ def run_history(scenario, only=None):
                     if op["how"] == 1:
                         mol.remove_nodes_from(list(mol.nodes)[::2])
                     event["out"] = "ok"
+            elif kind == "mass_check":
+                from rdkit import Chem
+                from rdkit.Chem import Descriptors
+                text, name, smiles = MASS_FRAGMENTS[op["which"] % len(MASS_FRAGMENTS)]
+                sampler = MoleculeSampler.from_fragment_string(text, polymer_reactivities={}, all_atom=True, seed=1)
+                want = Descriptors.MolWt(Chem.MolFromSmiles(smiles))
+                got = sampler.fragment_masses.get(name)
+                if got is None or abs(got - want) > 2e-3 * want:
+                    violations.append({"oracle": "C17.mass", "event": seq,
+                                       "detail": "fragment %s of %s: mass %r, atoms plus implicit hydrogens weigh %.3f" % (name, text, got, want)})
+                stats["mass_checks"] = stats.get("mass_checks", 0) + 1
+                event["out"] = "ok"
             elif kind == "helper_call":
                 # another part of the host program uses the package's public helpers on plain pysmiles graphs
                 import pysmiles
@@ -765,6 +779,19 @@ def run_history(scenario, only=None):
         stats["seed_calls"] = len(simrandom.seed_calls)
     return {"events": events, "violations": violations, "stats": stats}
 
+
+# element-derived masses of curated fragments against an independent engine (RDKit average molecular weight of the
+# fragment with its descriptor sites filled with hydrogen): aromatic [nH] rings, charged atoms, written hydrogens
+MASS_FRAGMENTS = [
+    ("{#A=[$]CC[$]c1cc[nH]c1}", "A", "CCc1cc[nH]c1"),
+    ("{#A=[$]Cc1c[nH]cn1}", "A", "Cc1c[nH]cn1"),
+    ("{#A=[>]CC[<]c1c[nH]c2ccccc12}", "A", "CCc1c[nH]c2ccccc12"),
+    ("{#A=[$]CC[$]c1ccccc1}", "A", "CCc1ccccc1"),
+    ("{#A=[$]C[N+](C)(C)C[$]}", "A", "C[N+](C)(C)C"),
+    ("{#A=[<]COC([H])[>]}", "A", "COC"),
+    ("{#A=[$]S(=O)(=O)[$]C}", "A", "CS(=O)(=O)[H]"),
+    ("{#A=[$]c1ccncc1,#B=[$]C(=O)[O-]}", "B", "C(=O)[O-]"),
+]
 
 # strings whose written-out, annotated hydrogens must survive: (string, {weight: number of hydrogens written with it})
 WRITTEN_H_STRINGS = [
